@@ -1,11 +1,16 @@
-#!/bin/sh
+#!/bin/bash
 # usage: seedcheck.sh <patch.diff> <ID> [more check args]
-# applies a seeded change to /repo, runs the check with evidence redirected, reverts /repo; prints verdict summary
+# applies a seeded change in a throw-away worktree of /repo (never in /repo itself), runs the check against it with
+# the evidence redirected, removes the worktree; prints the verdict lines
 p=$1; id=$2; shift
-cd /repo && git apply "$p" || { echo "patch does not apply"; exit 3; }
-cd /verif && VERIF_EVIDENCE_DIR=/verif/.scratch/mut-evidence ./check "$@" > /verif/.scratch/seedcheck.$$.out 2>&1; rc=$?
-cd /repo && git checkout -- . && git clean -fdq core hook open-coroutine macros 2>/dev/null
-grep -a -E "^(VIOLATION|INCONCLUSIVE|OK|KNOWN-FINDING|obligation failed)" /verif/.scratch/seedcheck.$$.out | cut -c1-300
-rm -f /verif/.scratch/seedcheck.$$.out
-echo "seedcheck $p rc=$rc"
+tag=$(echo "$p" | tr -c 'A-Za-z0-9' '_')
+wt=/tmp/sc_$tag
+git -C /repo worktree remove --force $wt >/dev/null 2>&1
+git -C /repo worktree add --detach $wt HEAD >/dev/null 2>&1 || { echo "cannot create worktree"; exit 3; }
+( cd $wt && git apply "$p" ) || { echo "patch does not apply"; git -C /repo worktree remove --force $wt; exit 3; }
+out=/verif/.scratch/seedcheck.$tag.out
+cd /verif && VERIF_REPO=$wt VERIF_EVIDENCE_DIR=/verif/.scratch/mut-evidence ./check "$@" > $out 2>&1; rc=$?
+git -C /repo worktree remove --force $wt
+grep -a -E "^(VIOLATION|INCONCLUSIVE|OK|KNOWN-FINDING|obligation failed)" $out | cut -c1-260
+echo "seedcheck $p $id rc=$rc"
 exit $rc
